@@ -429,11 +429,27 @@ func checkMnemonic(c mnCase) (valid bool, err error) {
 	}
 	s := mutateMnemonic(strings.Split(rm, " "), c)
 
-	// PBKDF2 without validation: defined for every string
-	rseed := hd.Seed(s, c.Pass)
-	if got := bip39.NewSeed(s, c.Pass); !bytes.Equal(got, rseed) {
-		return false, fmt.Errorf("NewSeed(%q,%q) = %x, reference %x", s, c.Pass, got, rseed)
+	// PBKDF2 without validation: defined for every string.  BIP39 feeds both strings in NFKD form.
+	rseed, normalisable := hd.SeedNFKD(s, c.Pass)
+	if !normalisable {
+		rseed = hd.Seed(s, c.Pass) // (not generated: a character the reference cannot normalise)
 	}
+	var known error
+	if got := bip39.NewSeed(s, c.Pass); !bytes.Equal(got, rseed) {
+		raw := hd.Seed(s, c.Pass)
+		if normalisable && !(hd.NFKDStable(s) && hd.NFKDStable(c.Pass)) && bytes.Equal(got, raw) {
+			// class of the open finding C14-bip39-no-nfkd: a string NFKD changes, hashed as typed
+			known = &knownFinding{key: kfNoNFKD, msg: fmt.Sprintf("NewSeed(%+q,%+q) = %x hashes the strings as given; BIP39 (NFKD of both) gives %x", s, c.Pass, got, rseed)}
+			rseed = raw
+		} else {
+			return false, fmt.Errorf("NewSeed(%q,%q) = %x, reference %x", s, c.Pass, got, rseed)
+		}
+	}
+	defer func() {
+		if err == nil && known != nil {
+			err = known
+		}
+	}()
 
 	want, werr := hd.EntropyFromMnemonic(s)
 	valid = werr == nil
@@ -482,23 +498,57 @@ func checkMnemonic(c mnCase) (valid bool, err error) {
 	return valid, nil
 }
 
-// characters whose UTF-8 form is unchanged by NFKD (no decomposition mapping): BIP39 normalises the
-// passphrase, the reference cannot, so only such strings are generated.
+// knownFinding is the error of a disagreement that lies in the documented class of a known finding.
+type knownFinding struct{ key, msg string }
+
+func (k *knownFinding) Error() string { return k.msg }
+
+// kfNoNFKD: gocoin hashes BIP39 mnemonic / passphrase bytes as typed, BIP39 prescribes their NFKD form.
+// Class: the string contains a character that NFKD changes (and the result equals the un-normalised hash).
+const kfNoNFKD = "C14-bip39-no-nfkd"
+
+// failOrExclude reports err: a disagreement inside the class of an OPEN known finding is counted, anything
+// else fails the case.
+func failOrExclude(r *pbt.Run, err error) {
+	if kf, ok := err.(*knownFinding); ok && pbt.FindingOpen(kf.key) {
+		r.Excluded(kf.key)
+		return
+	}
+	r.Failf("%v", err)
+}
+
+// passRunes: characters NFKD leaves alone; passRunesNFKD: characters it changes (composed letters,
+// ligatures, width variants, Hangul, kana with sound marks, the ideographic space).  All of them are in
+// ref/hd's NFKD table, so the reference normalises exactly as BIP39 says.
 var passRunes = []rune("abcXYZ019 !#$%&()*+,-./:;<=>?@[]^_{|}~ßøæđłпарольΩλ日本語中文")
+var passRunesNFKD = []rune("éèüöäñçÅåôǖệﬁ²½ｶＡ㎏한がйё\u3000ſ™パド")
+
+func genPassRunes(t *rapid.T, n int, pNFKD int) string {
+	rs := make([]rune, n)
+	for i := range rs {
+		if rapid.IntRange(0, 99).Draw(t, "pnf") < pNFKD {
+			rs[i] = passRunesNFKD[rapid.IntRange(0, len(passRunesNFKD)-1).Draw(t, "prn")]
+		} else {
+			rs[i] = passRunes[rapid.IntRange(0, len(passRunes)-1).Draw(t, "pr")]
+		}
+	}
+	return string(rs)
+}
 
 func genPass(t *rapid.T) string {
-	switch rapid.IntRange(0, 5).Draw(t, "passkind") {
+	switch rapid.IntRange(0, 8).Draw(t, "passkind") {
 	case 0:
 		return ""
 	case 1:
 		return "TREZOR"
+	case 2: // characters NFKD changes
+		return genPassRunes(t, rapid.IntRange(1, 12).Draw(t, "passlen"), 40)
+	case 3: // white space around / only white space
+		return rapid.SampledFrom([]string{" TREZOR", "TREZOR ", "  x  ", " ", "   ", "\ta", "a\t", "a  b   c", "TREZOR\n", "\r\n"}).Draw(t, "passws")
+	case 4: // long
+		return genPassRunes(t, rapid.IntRange(100, 300).Draw(t, "passlong"), 0)
 	}
-	n := rapid.IntRange(1, 24).Draw(t, "passlen")
-	rs := make([]rune, n)
-	for i := range rs {
-		rs[i] = passRunes[rapid.IntRange(0, len(passRunes)-1).Draw(t, "pr")]
-	}
-	return string(rs)
+	return genPassRunes(t, rapid.IntRange(1, 24).Draw(t, "passlen"), 0)
 }
 
 func genEntropy(t *rapid.T) []byte {
@@ -546,9 +596,15 @@ func TestBIP39(t *testing.T) {
 				r.Class("ref_invalid")
 			}
 		}
+		if !hd.NFKDStable(c.Pass) {
+			r.Class("passphrase_changed_by_nfkd")
+		}
+		if c.Pass != strings.TrimSpace(c.Pass) {
+			r.Class("passphrase_with_outer_white_space")
+		}
 		r.NonTrivial()
 		if err != nil {
-			r.Failf("%v", err)
+			failOrExclude(r, err)
 		}
 	})
 }
